@@ -167,6 +167,18 @@ def gskl(k, x1, x2):
     return torch.exp(-skl / k.lengthscale.detach())
 
 
+def index(k, x1, x2):
+    """k(i, j) = (B B^T + diag(v))_{ij} with B the covariance factor and v the task variances"""
+    cf, var = k.covar_factor.detach(), k.var.detach()
+    Bm = cf @ cf.transpose(-1, -2) + torch.diag_embed(var)  # ... t t
+    i1, i2 = x1.squeeze(-1).long(), x2.squeeze(-1).long()
+    bs = torch.broadcast_shapes(Bm.shape[:-2], i1.shape[:-1], i2.shape[:-1])
+    Bm = Bm.expand(*bs, *Bm.shape[-2:])
+    i1, i2 = i1.expand(*bs, i1.shape[-1]), i2.expand(*bs, i2.shape[-1])
+    rows = torch.gather(Bm, -2, i1.unsqueeze(-1).expand(*bs, i1.shape[-1], Bm.shape[-1]))
+    return torch.gather(rows, -1, i2.unsqueeze(-2).expand(*bs, i1.shape[-1], i2.shape[-1]))
+
+
 def scale(k, x1, x2):
     # ScaleKernel adopts its base kernel's active_dims and calls base.forward directly: columns are selected once
     o = k.outputscale.detach()
@@ -212,6 +224,7 @@ def dense(k, x1, x2, sub=True):
         K.CylindricalKernel: cylindrical,
         K.SpectralDeltaKernel: spectral_delta,
         K.GaussianSymmetrizedKLKernel: gskl,
+        K.IndexKernel: index,
     }
     for cls, fn in table.items():
         if type(k) is cls:
